@@ -49,8 +49,9 @@ NZ = 'nonzero'
 
 
 class PathInterp:
-    def __init__(self, fn, sinks, valuation=None, evaluator=SymEval, max_paths=256, store_prefixes=(), inline=None):
+    def __init__(self, fn, sinks, valuation=None, evaluator=SymEval, max_paths=256, store_prefixes=(), inline=None, resolve_keys=False):
         self.fn = fn
+        self.resolve_keys = resolve_keys      # spell decision keys with locals replaced by their values
         self.inline = dict(inline or {})     # callee text ('helper' or 'self.helper') -> FunctionDef interpreted in place
         self._depth = 0
         self.sinks = set(sinks)
@@ -202,6 +203,12 @@ class PathInterp:
         return b
 
     def _cond_key(self, t, ev):
+        if self.resolve_keys and isinstance(t, ast.Compare) and len(t.ops) == 1:
+            from .flow import OPTXT
+            try:
+                return '%s %s %s' % (ev.ev(t.left).key(), OPTXT.get(type(t.ops[0]), '?'), ev.ev(t.comparators[0]).key())
+            except Exception:
+                pass
         return norm(t)
 
     # ------------------------------------------------------------------ statements
